@@ -85,6 +85,28 @@ pub fn execute(ctx: &mut Ctx, s: &Scenario) -> Outcome {
     let anc = closure(&pf);
     let bad_leaf = sub.leaves.iter().any(|l| pf.has_term(*l) && pf.has_term(sub.root) && *l != sub.root && !anc[l].contains(&sub.root));
     let first = check_request(ctx, &mut out, src, &pf, &mod_roots, sub, &mut r, "");
+    // a history on ONE ontology value: request, then the modifier roots are changed through the public
+    // `modifier_mut()`, then the same request again — the second result must follow the new roots
+    if first.is_some() && r.chance(1, 10) {
+        let mut src2: hpo::Ontology = (**src).clone();
+        let mut new_roots: Vec<u32> = mod_roots.clone();
+        if !new_roots.is_empty() && r.chance(1, 2) {
+            let i = r.usize_below(new_roots.len());
+            new_roots.remove(i);
+        }
+        if r.chance(2, 3) {
+            let cand: Vec<u32> = pf.terms.iter().map(|t| t.id).filter(|i| *i != 1 && !new_roots.contains(i)).collect();
+            if !cand.is_empty() {
+                new_roots.push(*r.pick(&cand));
+            }
+        }
+        new_roots.sort_unstable();
+        if new_roots != mod_roots {
+            *src2.modifier_mut() = hpo::term::HpoGroup::from(new_roots.clone());
+            ctx.counters.add("probe.request_repeated_after_modifier_mut", 1);
+            let _ = check_request(ctx, &mut out, &src2, &pf, &new_roots, sub, &mut r, "after modifier_mut(): ");
+        }
+    }
     // a multi-step history: a sub-ontology of the sub-ontology (its source has no modifier roots: build_minimal)
     if let Some((o1, obs1)) = first {
         if r.chance(1, 3) && obs1.terms.len() >= 2 {
